@@ -478,6 +478,9 @@ def gen_document(rng):
     doc = {"kind": kind, "det": det, "pipeline": pipeline, "mode": mode, "readout": readout}
     if mode == "observation":
         pool = [(e, v) for e, v in range_exprs() if e != "(2, 3)" and "array([1, 5, 9])" not in e]
+        # a range may name the same number twice: it denotes every value written, in order
+        pool += [("[100, 200, 100]", [100, 200, 100]), ("numpy.array([1, 2, 2, 3]) / 4", [0.25, 0.5, 0.5, 0.75]),
+                 ("[0.5, 1, 1.0, 0.5]", [0.5, 1, 1.0, 0.5]), ("numpy.linspace(1, 1, 3)", [1.0, 1.0, 1.0])] * 2
         e2, exp2 = rng.choice(pool)
         key = rng.choice(["detector.environment.temperature", "detector.characteristics.quantum_efficiency"])
         if key.endswith("quantum_efficiency"):
@@ -1168,6 +1171,67 @@ def apd_predicate(case, impl):
     return None
 
 
+# ------------------------------------------------------------------ readout section: every subset of its settings
+def gen_readout_cases():
+    cases = []
+    for times in (None, [1.0, 2.5], [3]):
+        for st in (None, 0.0, 0.25, 0.75, 1.0, 1.5, 2.75, -0.5, 3):
+            for nd in (None, True, False):
+                cases.append({"stream": "readout", "times": times, "start_time": st, "non_destructive": nd})
+    return cases
+
+
+def readout_kwargs(case):
+    return {k: case[k] for k in ("times", "start_time", "non_destructive") if case[k] is not None}
+
+
+def readout_view(ro):
+    return {"times": [float(t) for t in ro.times], "start_time": float(ro.start_time), "non_destructive": bool(ro.non_destructive),
+            "steps": [float(sp) for _, sp in ro.time_step_it()]}
+
+
+def run_readout_impl(case):
+    import yaml
+    from pyxel.configuration import loads
+    from pyxel.exposure import Readout
+
+    kw = readout_kwargs(case)
+    out = {}
+    r, ro = outcome(lambda: Readout(**kw))
+    out["ctor"] = r
+    if r == "ok":
+        out["ctor_view"] = readout_view(ro)
+    for mode in ("exposure", "observation"):
+        md = {"readout": kw} if kw else {}
+        if mode == "observation":
+            md = dict(md, parameters=[{"key": "detector.environment.temperature", "values": [100, 200]}])
+        r, cfg = outcome(loads, yaml.safe_dump({mode: md, "ccd_detector": section_doc("CCD"), "pipeline": {}}, sort_keys=False))
+        out[mode] = r
+        if r == "ok":
+            out[mode + "_view"] = readout_view(cfg.running_mode.readout)
+    return out
+
+
+def readout_predicate(case, impl):
+    times = [float(t) for t in (case["times"] or [1])]
+    start = float(case["start_time"] if case["start_time"] is not None else 0.0)
+    legal = start < times[0]
+    want = {"times": times, "start_time": start, "non_destructive": bool(case["non_destructive"]),
+            "steps": [b - a for a, b in zip([start] + times[:-1], times)]}
+    desc = ", ".join("%s: %r" % kv for kv in readout_kwargs(case).items()) or "(empty)"
+    for path in ("ctor", "exposure", "observation"):
+        acc = impl[path] == "ok"
+        if legal and not acc:
+            return "Readout:%s:rejects-valid" % path, "readout section {%s} is legal but the %s path refused it (%s)" % (desc, path, impl[path])
+        if not legal and acc:
+            return ("Readout:%s:accepts-start-after-first-time" % path,
+                    "readout section {%s}: the start time is not before the first readout time %r but the %s path accepted it" % (desc, times[0], path))
+        if acc and impl[path + "_view"] != want:
+            return ("Readout:%s:setting-differs" % path, "readout section {%s} loaded on the %s path as %s, written / denoted %s"
+                    % (desc, path, impl[path + "_view"], want))
+    return None
+
+
 # ------------------------------------------------------------------ body
 def yaml_safe(d):
     return {k: v for k, v in d.items() if k != "stream"}
@@ -1435,6 +1499,14 @@ def body(ck: common.Check):
                 if ans["accepted"] != (impl["ctor"] == "ok") or ans["accepted"] != (impl["yaml"] == "ok"):
                     ck.disagreement("apd", c, impl, ans)
 
+        for c in gen_readout_cases():
+            impl = run_readout_impl(c)
+            ck.case(c, nontrivial=True, stream="readout")
+            ck.count("readout:ctor=%s" % impl["ctor"])
+            why = readout_predicate(c, impl)
+            if why is not None:
+                ck.violation("C12:" + why[0], why[1], {"case": c, "impl": impl})
+
         for c in reload_cases:
             impl = run_reload_impl(c, tmp)
             ck.case({"versions": [yaml_safe(v) for v in c["versions"]]}, nontrivial=True, stream="reload")
@@ -1450,7 +1522,10 @@ def body(ck: common.Check):
 
     ck.extra["guard_table"] = [{"cls": e["cls"], "field": e["field"], "ctor": mod.cond_json(e["ctor"]), "setter": mod.cond_json(e["setter"])} for e in table]
     ck.extra["opaque_fields"] = opaque
-    ck.rule = ("apd: the three APD bias inputs as relations — every pair of (pixel reset voltage, common voltage) with a bias of -1, 0, "
+    ck.rule = ("readout: every subset of the readout section's settings (times absent / two times / one time, start time absent or "
+               "before / at / after the first time, non_destructive absent / true / false) through Readout(...) and an exposure / "
+               "observation document: accepted iff the start is before the first time, times / start / steps / flag as written; "
+               "apd: the three APD bias inputs as relations — every pair of (pixel reset voltage, common voltage) with a bias of -1, 0, "
                "0.5, 0.999, 1, 1+ulp, 1.5, 4, 9.5 V, gain with either voltage at 0.5/1/2/30.5/1000/1001/nan, all three, one, none — "
                "through the constructor and a YAML document, accepted objects checked for bias = reset - common, inputs stored, "
                "charge-to-volt usable (attribute setters observed and counted); mode: every constructor parameter of Calibration, Algorithm, Exposure, Observation and Readout (read off the source with "
@@ -1507,6 +1582,9 @@ def replay(rp):
         elif st == "ctx":
             impl = run_ctx_impl(case)
             why = ctx_predicate(case, impl)
+        elif st == "readout":
+            impl = run_readout_impl(case)
+            why = readout_predicate(case, impl)
         elif st == "apd":
             impl = run_apd_impl(case)
             why = apd_predicate(case, impl)
